@@ -317,7 +317,7 @@ func (c *c04) stringsWorkload(thorough bool) {
 	for _, d := range denoms {
 		tc.L1.L1.Fund(who.Addr, sdk.NewCoin(d, math.NewInt(1_000_000_000)))
 	}
-	for round := 0; round < pick(thorough, 2, 12); round++ {
+	for round := 0; round < pick(thorough, 2, 40); round++ {
 		for di, d := range denoms {
 			u := tc.L2.Users[di%4]
 			if r := tc.L1Deposit(who, u.String(), d, math.NewInt(100_000), nil); r.Class != sim.OK {
@@ -344,7 +344,7 @@ func (c *c04) stringsWorkload(thorough bool) {
 }
 
 func checkC04(run *mon.Run, rng *mon.Rand, thorough bool) {
-	run.Rule = "two real chains + a faithful executor model (acts only on parsed events): (a) for every tree size 1..N (48 quick; 96 + sampled sizes up to 300 thorough), both tree shapes, a mix of user and refund withdrawals recorded by the real L2 is committed, the period waited out, and EVERY leaf claimed (and re-claimed) on the real L1; (b) amount lattice {1,2,2^31,2^53,2^63-1,2^63,2^64-1,2^64,2^64+1,2^65,2^128,2^255-1} through three paths (deposit+user withdrawal, deposit+refund, accumulate+withdraw); (c) denoms with / : . _ - and 128 chars, 1/20/32-byte L1 recipients, hostile L2 recipient strings that become the refund's sender. Distinct non-trivial = (size, shape, position, amount class, source) finalized successfully + lattice cells"
+	run.Rule = "two real chains + a faithful executor model (acts only on parsed events): (a) for every tree size 1..N (48 quick; 400 + sampled sizes up to 600 thorough), both tree shapes, a mix of user and refund withdrawals recorded by the real L2 is committed, the period waited out, and EVERY leaf claimed (and re-claimed) on the real L1; (b) amount lattice {1,2,2^31,2^53,2^63-1,2^63,2^64-1,2^64,2^64+1,2^65,2^128,2^255-1} through three paths (deposit+user withdrawal, deposit+refund, accumulate+withdraw); (c) denoms with / : . _ - and 128 chars, 1/20/32-byte L1 recipients, hostile L2 recipient strings that become the refund's sender. Distinct non-trivial = (size, shape, position, amount class, source) finalized successfully + lattice cells"
 	run.Assumptions = []string{"the published tree rule: sorted-pair SHA3 nodes over leaves in sequence order; both completion rules used by executors (pad-with-last, promote-odd) are exercised", "premise of the property: positive amount and valid L1 recipient"}
 	for _, cl := range []string{"C04.every_leaf_finalizes", "C04.paid_in_full", "C04.exactly_once", "C04.recorded_withdrawal_is_committable", "C04.amount_lattice"} {
 		run.Declare(cl, 30)
@@ -357,14 +357,14 @@ func checkC04(run *mon.Run, rng *mon.Rand, thorough bool) {
 	c.stringsWorkload(thorough)
 	c.bigEscrow()
 	c.emptyRecipient()
-	maxN := pick(thorough, 48, 96)
+	maxN := pick(thorough, 48, 400)
 	for n := 1; n <= maxN && !run.TooMany(); n++ {
 		for shape := 0; shape < 2; shape++ {
 			c.treeWorkload(n, ref.TreeShape(shape))
 		}
 	}
 	if thorough {
-		for _, n := range []int{100, 127, 128, 129, 200, 255, 256, 257, 300} {
+		for _, n := range []int{200, 255, 256, 257, 300, 511, 512, 513, 600} {
 			if run.TooMany() {
 				break
 			}
